@@ -103,6 +103,7 @@ func C15(c *Ctx) {
 		}
 		nB++
 		param := pf.Type.Params.List[0].Names[0].Name
+		rn := "p.pt.rn"
 		// on the normalised paths: with the rune as read (unfolded) below 128 the table entry alone decides - a hit
 		// consumes the rune and reports success, a miss reports failure and consumes nothing - and nothing else is
 		// consulted; at 128 and above the table is not touched
@@ -114,10 +115,32 @@ func C15(c *Ctx) {
 				detail = s
 			}
 		}
-		rn := "p.pt.rn"
 		entry := param + ".basicLatinChars[" + rn + "]"
 		nHit, nMiss := 0, 0
-		for _, p := range c.vnorm(v).without("read", "restore", "failAt", "sliceFrom", "in", "out", "addErr", "addErrAt").normPaths(pf) {
+		for _, p0 := range c.vnorm(v).without("read", "restore", "failAt", "sliceFrom", "in", "out", "addErr", "addErrAt").normPaths(pf) {
+			// the bound of the table may be spelled as its length (an array: a constant), on an integer conversion of
+			// the rune, and accompanied by the vacuous lower bound of an index
+			tlen := "len(" + param + ".basicLatinChars)"
+			p := make(bpath, 0, len(p0))
+			for _, e := range p0 {
+				t := e.Text
+				t = strings.ReplaceAll(t, "int("+rn+")<"+tlen, rn+"<128")
+				t = strings.ReplaceAll(t, "int("+rn+")>="+tlen, rn+">=128")
+				t = strings.ReplaceAll(t, rn+"<"+tlen, rn+"<128")
+				t = strings.ReplaceAll(t, rn+">="+tlen, rn+">=128")
+				if e.Kind == "+" {
+					// rn >= 0 holds for every rune read() stores; a disjunct rn < 0 never does
+					if t == rn+">=0" {
+						continue
+					}
+					t = strings.TrimSuffix(strings.TrimPrefix(t, rn+"<0||"), "||"+rn+"<0")
+				}
+				if (e.Kind == "call" || e.Kind == "ccall") && t == tlen {
+					continue
+				}
+				e.Text = t
+				p = append(p, e)
+			}
 			usesTable := false
 			for _, e := range p {
 				if strings.Contains(e.Text, param+".basicLatinChars") {
